@@ -64,6 +64,9 @@ static inline void ios_get_mpz(ios_t *s, mpz_ptr x)
   __CPROVER_assume(ev_n + 1 > ev_n); ev_n = ev_n + 1;
   x->v = s->tok[s->pos]; s->pos = s->pos + 1;
 }
+/* frame of the stream operations (for assigns clauses) */
+#define IOS_IN_ASSIGNS(s) (s)->pos, (s)->fail, (s)->ikev, ev_n
+#define IOS_OUT_ASSIGNS(s) (s)->acc, (s)->nput, (s)->okv, (s)->okev, ev_n
 /* precondition text for a well-formed (allocated) input stream object */
 #define IOS_IN_OK(s) (__CPROVER_is_fresh((s), sizeof(ios_t)) && (s)->ntok <= IOS_MAXTOK && (s)->pos <= (s)->ntok && \
                       __CPROVER_is_fresh((s)->tok, IOS_MAXTOK * sizeof(long)))
